@@ -226,6 +226,7 @@ func (ft *fnTrans) staticModItems(fc *FuncContract, callee *ssa.Function, c *ssa
 	sig := c.Signature()
 	names := calleeParamNames(callee, sig, c.IsInvoke())
 	env := &Env{vc: ft.vc, pkg: ft.calleePkg(fc, callee, c), vars: map[string]TV{}, heap: ft.entry, top0: ft.top0}
+	env.boxed = ft.boxedArgs(c, names)
 	i := 0
 	if c.IsInvoke() {
 		env.vars[names[0]] = TV{"0", c.Value.Type()}
@@ -268,6 +269,7 @@ func (ft *fnTrans) applyContract(x ssa.Value, fc *FuncContract, callee *ssa.Func
 		pre.vars[names[i]] = a
 	}
 	pre.old = pre
+	pre.boxed = ft.boxedArgs(c, names)
 	site := ft.siteName("call." + shortFuncName(key))
 	for k, r := range fc.Requires {
 		t, err := pre.Bool(r.Expr)
@@ -841,4 +843,22 @@ func (ft *fnTrans) copyOut(ia interiorArg, h *Heap) {
 	// merge: if unchanged keep h, else hh
 	merged := vc.merge([]heapEdge{{changed, hh}, {"true", *h}})
 	*h = merged
+}
+
+
+// boxedArgs: for interface-typed arguments built by boxing a pointer at the call site, the pointee type
+func (ft *fnTrans) boxedArgs(c *ssa.CallCommon, names []string) map[string]types.Type {
+	out := map[string]types.Type{}
+	off := 0
+	if c.IsInvoke() {
+		off = 1
+	}
+	for j, a := range c.Args {
+		if mi, ok := a.(*ssa.MakeInterface); ok {
+			if pt, ok := mi.X.Type().Underlying().(*types.Pointer); ok && j+off < len(names) {
+				out[names[j+off]] = pt.Elem()
+			}
+		}
+	}
+	return out
 }
